@@ -91,6 +91,18 @@ def judge(kind, v, out):
         a, b = v[1:6], v[6:11]
         comb = {0: b, 1: [a[0], b[1], b[2], a[3], a[4]], 2: [b[0], a[1], a[2], a[3], a[4]], 3: [a[0], a[1], a[2], b[3], b[4]]}[which]
         return int(t[1]) == expected_madctl(*comb), "byte %s, expected %d" % (t[1], expected_madctl(*comb))
+    if kind == "orient":
+        rot, mir, which, by = v[:4]
+        if t[0] != "ok":
+            return False, "native: " + out
+        r, m = int(t[1]), int(t[2])
+        if which == 0:
+            return (r, m) == ((rot + by) % 4, mir), "rotate(%d) of (%d,%d) gives (%d,%d)" % (by, rot, mir, r, m)
+        if which in (1, 2):
+            return m == 1 - mir, "a flip must toggle the mirror flag"
+        if which in (3, 4):
+            return (r, m) == (rot, mir), "two equal flips of (%d,%d) give (%d,%d)" % (rot, mir, r, m)
+        return (r, m) == ((rot + 2) % 4, mir), "flip_h then flip_v of (%d,%d) gives (%d,%d), expected a half turn" % (rot, mir, r, m)
     if kind == "deg":
         a = v[0]
         if t[0] == "ok":
@@ -232,6 +244,21 @@ def validate_and_replay(prop, scratch, seed, E, cands):
     cvecs = []
     for ob in cands:
         kind = {"saw": "saw", "init": "init", "scroll": "scroll", "madctl": "madctl", "degree": "deg"}.get(ob["name"].split("/")[0])
+        if ob["name"].startswith("orientation/"):
+            m = ob.get("model") or {}
+            rv = [v for k, v in m.items() if k.startswith("rot_")]
+            mv = [v for k, v in m.items() if k.startswith("mirrored_")]
+            bv_ = [v for k, v in m.items() if k.startswith("by_")]
+            sub = ob["name"].split("/")[1]
+            which = {"rotate": 0, "flip_horizontal": 1, "flip_vertical": 2, "flip_horizontal_twice": 3, "flip_vertical_twice": 4, "flip_h_then_v": 5}.get(sub, 0)
+            if rv and mv:
+                if "panic-free" in ob["name"]:
+                    # the panic is inside a helper reached from several operations: try them all
+                    for w in range(6):
+                        cvecs.append((ob, "orient", [int(rv[0]), int(mv[0]), w, int(bv_[0]) if bv_ else 0]))
+                else:
+                    cvecs.append((ob, "orient", [int(rv[0]), int(mv[0]), which, int(bv_[0]) if bv_ else 0]))
+            continue
         if kind and kind in E.tv:
             v = cand_vector(kind, ob, E.tv[kind])
             if v is not None:
@@ -275,6 +302,8 @@ def validate_and_replay(prop, scratch, seed, E, cands):
         return report
     # replay the candidates
     for (ob, kind, v) in cvecs:
+        if ob["verdict"] == "violated":
+            continue
         out = nat.run([("%s " % kind) + " ".join(str(x) for x in v)])[0]
         good, why = judge(kind, v, out)
         if not good:
@@ -287,9 +316,14 @@ def validate_and_replay(prop, scratch, seed, E, cands):
             ob["replayed"] = True
             ob["replay_path"] = path
             ob["what"] += " -- real code: " + why
-        else:
+        elif ob["verdict"] != "violated":
             ob["verdict"] = "inconclusive"
-            ob["what"] += " (solver model does not reproduce on the real code: encoding suspect; native says %r)" % out
+            if "does not reproduce" not in ob["what"]:
+                ob["what"] += " (solver model does not reproduce on the real code: encoding suspect; native says %r)" % out
+    for ob in cands:
+        if ob["verdict"] == "candidate":
+            ob["verdict"] = "inconclusive"
+            ob["what"] += " (solver model could not be replayed on the real code for this obligation: not reported)"
     for f in report.get("native_oracle_failures", [])[:1]:
         d = os.path.join(os.environ.get("VERIF_OUT", VERIF), "replays", prop)
         os.makedirs(d, exist_ok=True)
